@@ -855,7 +855,7 @@ func runC01(env *vk.Env) {
 	// arrays whose length is a multiple of a block size a decoder might read by (and one more / one less), followed by
 	// another field: every element is what the document says, and what follows is found where it is
 	tr = &vk.Trace{}
-	for _, bl := range []struct{ tag, n int }{{12, 511}, {12, 512}, {12, 513}, {12, 1024}, {11, 1023}, {11, 1024}, {11, 2048}, {7, 4096}, {7, 4097}, {7, 8192}} {
+	for _, bl := range []struct{ tag, n int }{{12, 511}, {12, 512}, {12, 513}, {12, 1024}, {12, 64}, {11, 1023}, {11, 1024}, {11, 2048}, {11, 128}, {7, 4096}, {7, 4097}, {7, 8192}, {7, 512}, {7, 1024}} {
 		arr := &nbtNode{T: bl.tag}
 		switch bl.tag {
 		case 7:
@@ -876,7 +876,7 @@ func runC01(env *vk.Env) {
 		tree := &nbtNode{T: 10, Ent: []nbtEntry{{K: ints([]byte("data")), N: arr}, {K: ints([]byte("after")), N: &nbtNode{T: 3, Pat: []int{0, 0, 0, 7}}}}}
 		fmtName := []string{"file", "network"}[bl.n%2]
 		input := append(nbtDocBytes(fmtName, []byte{}, tree), 0xff)
-		for _, tg := range []string{"any", "map", "skip"} {
+		for _, tg := range []string{"any", "map", "skip", "dynbt", "raw", "dynbt-used"} {
 			tr.Add(nbtDecode(fmtName, input, tg, "block-sized-array"))
 		}
 		if t := shapeOf(tree, false); t != nil {
